@@ -527,3 +527,44 @@ def gen_dec_raw(rng, n):
         rng.shuffle(edges)
         cases.append(dict(kind="dec-raw", nodes=nodes, edges=edges))
     return cases
+
+
+# ------------------------------------------------------------------ the reaction-side hypotheses of the string theorems on real readings
+# case = {"kind": "str-prem", "rsmi": r}.  model: reaction_okb (reading of the reactant side) (reading of the product side) - sound for
+# rmol_ok, wf, same_nodes, orders_pos, one_parent (proof/C01_PremProof.v); implementation side: the independent reading says
+# "maps unique on each side and the same map set on both sides" (then every hypothesis must hold for a sanitised RDKit molecule)
+
+def obs_prem(case):
+    from . import c01_rsmi as R
+    if case["rsmi"].count(">>") != 1:
+        return ["no-split"]
+    a, b = case["rsmi"].split(">>")
+    A, B = R.read_side(a), R.read_side(b)
+    if A is None or B is None:
+        return ["unparsable"]
+    ok = (not A[3]) and (not B[3]) and set(A[0]) == set(B[0])
+    # h_safe on both sides of the ITS (only looked at when the reaction is balanced with unique maps): an atom that is a hydrogen on a
+    # side has min(total H on the reactant side, total H on the product side) <= 0
+    safe = ok and all((A[0][k][0] != "H" and B[0][k][0] != "H") or min(A[0][k][2], B[0][k][2]) <= 0 for k in A[0])
+    return [ok, safe]
+
+
+def coq_prem(case):
+    if case["rsmi"].count(">>") != 1:
+        return None
+    a, b = case["rsmi"].split(">>")
+    ma, mb = T.sanitized_mol(a), T.sanitized_mol(b)
+    if ma is None or mb is None:
+        return None
+    return "run_prem2 %s %s" % (T.coq_rmol(T.read_rmol(ma)), T.coq_rmol(T.read_rmol(mb)))
+
+
+def gen_prem(strings, rng, unmap):
+    cases = []
+    for r in strings:
+        cases.append(dict(kind="str-prem", rsmi=r))
+    for r in strings[:max(10, len(strings) // 4)]:                # duplicated maps / atoms unmapped on one side: the test must say no
+        if r.count(">>") == 1:
+            a, b = r.split(">>")
+            cases.append(dict(kind="str-prem", rsmi=unmap(a, rng) + ">>" + b))
+    return cases
